@@ -16,6 +16,12 @@ pub trait RenameExt {
     fn to_screaming_kebab_case(&self) -> String;
 }
 
+/// A name is all uppercase, such as "URL" or "TOTP", when it has no lowercase letter, ASCII or
+/// not: "ΑλφαΒήτα" is not.
+fn is_all_uppercase(name: &str) -> bool {
+    !name.chars().any(char::is_lowercase)
+}
+
 impl RenameExt for String {
     fn to_camel_case(&self) -> String {
         let pascal = self.to_pascal_case();
@@ -32,7 +38,7 @@ impl RenameExt for String {
         let to_lowercase = {
             // Check if string is all uppercase, such as "URL" or "TOTP". In that case, we don't want
             // to preserve the cases.
-            self.to_ascii_uppercase() == *self
+            is_all_uppercase(self)
         };
 
         for ch in self.chars() {
@@ -54,7 +60,7 @@ impl RenameExt for String {
 
     fn to_snake_case(&self) -> String {
         let mut snake = Self::new();
-        let is_uppercase = self.to_ascii_uppercase() == *self;
+        let is_uppercase = is_all_uppercase(self);
         for (i, ch) in self.char_indices() {
             if i > 0 && ch.is_uppercase() && !is_uppercase {
                 snake.push('_');
